@@ -67,15 +67,18 @@ def parse_object(path):
         if "F" in flags:
             functions.add(name)
         if "O" in flags or (is_mut_section(sec) and "d" not in flags and name and not name.startswith(".")):
-            syms.append((sec, val, size, name))
+            syms.append((sec, val, size, name, flags[0] in "gu!"))
     globs = {}
-    for sec, val, size, name in syms:
+    extern_visible = {}   # name -> key, for mutable objects with external linkage (referenced from other translation units)
+    for sec, val, size, name, ext in syms:
         if is_mut_section(sec):
             globs[f"{obj}:{name}"] = (sec, sec.startswith(".tbss") or sec.startswith(".tdata"))
+            if ext:
+                extern_visible[name] = f"{obj}:{name}"
 
     def sym_at(sec, off):
         best = None
-        for s, v, sz, n in syms:
+        for s, v, sz, n, _e in syms:
             if s == sec and v <= off < v + max(sz, 1):
                 best = n
         return best
@@ -89,7 +92,7 @@ def parse_object(path):
         m = re.match(r"^[0-9a-f]+ <([^>]+)>:$", line)
         if m:
             cur = m.group(1)
-            funcs.setdefault(cur, dict(calls=set(), refs=set(), indirect=False))
+            funcs.setdefault(cur, dict(calls=set(), refs=set(), indirect=False, extrefs=set()))
             continue
         if cur is None:
             continue
@@ -113,9 +116,12 @@ def parse_object(path):
                     funcs[cur]["calls"].add(base)
                 else:
                     addr_taken.add(base)
+                    funcs[cur]["extrefs"].add(base)
             elif not base.startswith("."):
-                # reference to an external symbol that is not called: data or function address
+                # reference to an external symbol that is not called: a function address, or a data object defined in
+                # ANOTHER translation unit (resolved against the global symbols of all objects in gen_globals)
                 addr_taken.add(base)
+                funcs[cur]["extrefs"].add(base)
             continue
         m = re.match(r"^\s+[0-9a-f]+:\s+(.*)$", line)
         if m:
@@ -136,11 +142,11 @@ def parse_object(path):
             base = re.sub(r"[+-]0x[0-9a-f]+$", "", m.group(2))
             if not base.startswith("."):
                 addr_taken.add(base)
-    return dict(funcs=funcs, addr_taken=addr_taken, globals=globs)
+    return dict(funcs=funcs, addr_taken=addr_taken, globals=globs, extern_visible=extern_visible)
 
 
 def api_roots():
-    """exported entry points that take a shared object: first parameter `const MODULE*` or `const *_PRECOMP*`"""
+    """exported entry points that take a shared object: first parameter `[const] MODULE*` or `[const] *_PRECOMP*`"""
     roots, simple = set(), set()
     hdrs = []
     for pat in ("spqlios/arithmetic/vec_znx_arithmetic.h", "spqlios/reim/reim_fft.h", "spqlios/cplx/cplx_fft.h",
@@ -157,30 +163,38 @@ def api_roots():
             first = params.split(",")[0].strip()
             if name.endswith("_simple"):
                 simple.add(name)
-            elif re.match(r"^const\s+(MODULE|\w+_PRECOMP|\w+_precomp)\s*\*", first):
+            elif re.match(r"^(const\s+)?(MODULE|\w+_PRECOMP|\w+_precomp)\s*\*", first):
+                # also non-const: the q120 product kernels take their precomputation through a non-const pointer
                 roots.add(name)
     return sorted(roots), sorted(simple)
 
 
 def gen_globals(libdir):
     objs = sorted(glob.glob(os.path.join(libdir, "*.o")))
-    funcs, addr_taken, globs = {}, set(), {}
+    funcs, addr_taken, globs, extern_visible = {}, set(), {}, {}
     for o in objs:
         if os.path.basename(o).startswith("hobj"):
             continue
         r = parse_object(o)
         for k, v in r["funcs"].items():
-            f = funcs.setdefault(k, dict(calls=set(), refs=set(), indirect=False))
+            f = funcs.setdefault(k, dict(calls=set(), refs=set(), indirect=False, extrefs=set()))
             f["calls"] |= v["calls"]
             f["refs"] |= v["refs"]
             f["indirect"] |= v["indirect"]
+            f["extrefs"] |= v.get("extrefs", set())
         addr_taken |= r["addr_taken"]
         globs.update(r["globals"])
+        extern_visible.update(r["extern_visible"])
+    # references to mutable objects defined in another translation unit (GOT / absolute relocations against the symbol name)
+    for k, f in funcs.items():
+        for base in f["extrefs"]:
+            if base in extern_visible:
+                f["refs"].add(extern_visible[base])
     # GCC may split functions into f.cold / f.part.N: fold them into the parent
     for k in list(funcs):
         base = re.sub(r"\.(cold|part\.\d+|constprop\.\d+|isra\.\d+)(\..*)?$", "", k)
         if base != k:
-            f = funcs.setdefault(base, dict(calls=set(), refs=set(), indirect=False))
+            f = funcs.setdefault(base, dict(calls=set(), refs=set(), indirect=False, extrefs=set()))
             f["calls"] |= funcs[k]["calls"]
             f["refs"] |= funcs[k]["refs"]
             f["indirect"] |= funcs[k]["indirect"]
@@ -350,26 +364,26 @@ def generate(mods, libdir):
         elif m == "dispatch":
             try:
                 import gen_dispatch
-            except ImportError:
-                continue
+            except ImportError as e:
+                raise RuntimeError(f"generator module for '{m}' cannot be imported: {e}")
             res[m] = gen_dispatch.generate(libdir)
         elif m == "tmpbytes":
             try:
                 import gen_tmpbytes
-            except ImportError:
-                continue
+            except ImportError as e:
+                raise RuntimeError(f"generator module for '{m}' cannot be imported: {e}")
             res[m] = gen_tmpbytes.generate(libdir)
         elif m == "q120":
             try:
                 import gen_q120
-            except ImportError:
-                continue
+            except ImportError as e:
+                raise RuntimeError(f"generator module for '{m}' cannot be imported: {e}")
             res[m] = gen_q120.generate(libdir)
         elif m == "q120ntt":
             try:
                 import gen_q120ntt
-            except ImportError:
-                continue
+            except ImportError as e:
+                raise RuntimeError(f"generator module for '{m}' cannot be imported: {e}")
             res[m] = gen_q120ntt.generate(libdir)
         elif m == "csrc":
             # C source of the coefficient kernels -> CIR terms (Gen/CSrc.lean).  A function with a construct the
